@@ -69,7 +69,11 @@ var (
 			return nil, fmt.Errorf("//str.expand: delim not a string: %v", args[2])
 		}
 		if strings.HasPrefix(delim, ":") {
-			if array, is := rel.AsArray(args[1].(rel.Set)); is {
+			set, is := args[1].(rel.Set)
+			if !is {
+				return nil, fmt.Errorf("//str.expand: arg not an array in ${arg::}: %v", args[1])
+			}
+			if array, is := rel.AsArray(set); is {
 				var sb strings.Builder
 				for i, value := range array.Values() {
 					if i > 0 {
